@@ -1,6 +1,7 @@
 import KyupyVerif.Model.SubstSem
 import KyupyVerif.Proofs.Substitute4
 import KyupyVerif.Proofs.TransformSem6
+import KyupyVerif.Proofs.WFr
 /-! Helper lemmas for C10 (`substitute_sem`), part 1: the vocabulary of the semantic statement (`ConsHole`, `ImplMatches`),
 accessors of `cutIns`, what `implShape` returns, and the structural certificate `SubstCert` from which the semantic
 statement is derived (SubstSem2/3); the certificate itself is proved from the model in SubstStruct*. -/
